@@ -10,7 +10,9 @@ import (
 	"strings"
 	"sync"
 	"time"
+	"unsafe"
 
+	"github.com/cnotch/ipchub/av/format/flv"
 	"github.com/cnotch/ipchub/media"
 	"github.com/cnotch/ipchub/network/websocket"
 	sflv "github.com/cnotch/ipchub/service/flv"
@@ -174,6 +176,16 @@ func runFlvWire(c *Ctx, ws bool, seed uint64, idx int) {
 		data []byte
 	}
 	var want []wr
+	var tagObjs []*flv.Tag
+	var tagSnaps [][]byte
+	defer func() {
+		for i, t := range tagObjs {
+			if !bytes.Equal(rawTag(t), tagSnaps[i]) {
+				fail("flvwire-shared-tag-mutated", fmt.Sprintf("the written tag object %d was modified while it was being delivered (it is shared by the cache and all consumers)", i), "consumers and the cache never write to a shared tag")
+				return
+			}
+		}
+	}()
 	ts := uint32(rng.Intn(5000))
 	n := 10 + rng.Intn(60)
 	for i := 0; i < n; i++ {
@@ -188,6 +200,8 @@ func runFlvWire(c *Ctx, ws bool, seed uint64, idx int) {
 			t.DataSize = uint32(len(t.Data))
 		}
 		want = append(want, wr{t.TagType, ts, append([]byte(nil), t.Data...)})
+		tagObjs = append(tagObjs, t)
+		tagSnaps = append(tagSnaps, rawTag(t))
 		s.WriteFlvTag(t)
 	}
 	c.Eval(key, true)
@@ -252,3 +266,10 @@ func FlvWireRuns(c *Ctx) {
 }
 
 var _ = io.EOF
+
+func rawTag(t *flv.Tag) []byte {
+	n := int(unsafe.Sizeof(*t))
+	b := make([]byte, n)
+	copy(b, (*[1 << 12]byte)(unsafe.Pointer(t))[:n:n])
+	return b
+}
